@@ -222,6 +222,30 @@ theorem dmrg_noise_asFound_counterexample :
   rw [hw] at he
   cases he
 
+/-! ### However the solver is requested -/
+
+/-- `Solver` is a `str` enum and `MPSConfig` stores the option as given: the enum member, the
+documented string `"dmrg"`, or a string coming back from an abstract-repr round trip. The code
+tests the *value* (`==`), so the refusal holds for every form. -/
+theorem dmrg_refuses_noise_any_form (f : SolverForm) (d : Seq) (cfgNoise : Bool)
+    (h : d.opDims ≠ [] ∨ cfgNoise = true) :
+    acceptSeqF .byValue f .repaired .mps d .dmrg cfgNoise = .raise .notImpl :=
+  dmrg_refuses_noise_seq d cfgNoise h
+
+/-- Seeded variant t09-C33 (`is Solver.DMRG`): requested as a string, DMRG + noise is emulated by
+the TDVP quantum-jump implementation. -/
+theorem dmrg_identity_counterexample :
+    ¬ (∀ (f : SolverForm) (d : Seq) (cfgNoise : Bool), (d.opDims ≠ [] ∨ cfgNoise = true) →
+        ∃ e, acceptSeqF .byIdentity f .repaired .mps d .dmrg cfgNoise = .raise e) := by
+  intro h
+  obtain ⟨e, he⟩ := h .string { ham := .rydberg, dim := 2, opDims := [2], nAtoms := 2, nGood := 2 } false
+    (Or.inl (by simp))
+  have hw : acceptSeqF .byIdentity .string .repaired .mps
+      { ham := .rydberg, dim := 2, opDims := [2], nAtoms := 2, nGood := 2 } .dmrg false
+      = .emulate .rydberg2 := by decide
+  rw [hw] at he
+  cases he
+
 /-! ### The noise model *in effect* (finding: `prefer_device_noise_model`) -/
 
 /-- Full-strength reading of "the DMRG solver refuses noise models with noise": whatever the
